@@ -53,6 +53,42 @@ type Case struct {
 	// More: Encoder only - the values of the 2nd, 3rd ... Encode call on the same Encoder (default: Value
 	// again). An Encode call that fails to marshal its value must not affect the calls that follow.
 	More []jgen.Recipe `json:"more,omitempty"`
+	// Special (with N): a value recipes cannot describe because parts of it are shared (the same slice, map or
+	// pointer referenced several times, which is not a cycle), below N levels of nesting.
+	Special string `json:"special,omitempty"`
+	N       int    `json:"n,omitempty"`
+}
+
+// specialValue builds the shared-reference values: encoding/json encodes them like any other value; an encoder
+// that tracks visited references to detect cycles must forget a reference when it leaves it.
+func specialValue(name string, n int) any {
+	sharedS := []any{1, "s"}
+	sharedM := map[string]any{"k": []any{true}}
+	x := 7
+	sharedP := &x
+	var leaf any
+	switch name {
+	case "shared-slice":
+		leaf = []any{sharedS, sharedS, map[string]any{"a": sharedS}}
+	case "shared-map":
+		leaf = []any{sharedM, map[string]any{"a": sharedM, "b": sharedM}, sharedM}
+	case "shared-ptr":
+		leaf = []any{sharedP, sharedP, map[string]any{"a": sharedP}, struct{ P, Q *int }{sharedP, sharedP}}
+	default: // shared-mixed
+		leaf = map[string]any{"s": sharedS, "m": sharedM, "l": []any{sharedS, sharedM, sharedP, sharedS}, "p": sharedP}
+	}
+	for i := 0; i < n; i++ {
+		switch i % 3 {
+		case 0:
+			leaf = []any{leaf}
+		case 1:
+			leaf = map[string]any{"d": leaf}
+		default:
+			v := leaf
+			leaf = &v
+		}
+	}
+	return []any{leaf, leaf}
 }
 
 // args returns the value of every Encode call (one element for the other entry points).
@@ -67,6 +103,9 @@ func args(c Case) []any {
 }
 
 func arg(c Case) any {
+	if c.Special != "" {
+		return specialValue(c.Special, c.N)
+	}
 	v := jgen.Build(c.Type.Type(), c.Value)
 	if c.Setting.ByPtr {
 		return v.Addr().Interface()
@@ -383,6 +422,31 @@ func TestEncoderSequences(t *testing.T) {
 			evid.Violation(rt, "EncoderSequences", c, f)
 		}
 	})
+}
+
+// TestSharedReferences: values in which one slice, map or pointer is referenced several times (not a cycle),
+// below 0..1500 levels of nesting (the encoder starts tracking visited references beyond a depth of its own),
+// through every entry point.
+func TestSharedReferences(t *testing.T) {
+	if evid.Shard() != 0 {
+		return
+	}
+	n := 0
+	for _, name := range []string{"shared-slice", "shared-map", "shared-ptr", "shared-mixed"} {
+		for _, depth := range []int{0, 1, 10, 500, 998, 999, 1000, 1001, 1002, 1003, 1500} {
+			for _, s := range []Setting{{API: "Marshal"}, {API: "Append"}, {API: "Encoder", N: 2, EscapeHTML: true}, {API: "MarshalIndent", Indent: " "}} {
+				c := Case{Type: jgen.TypeDesc{K: "any"}, Special: name, N: depth, Setting: s}
+				n++
+				evid.NonTrivial(evid.HashS("shared", name, fmt.Sprint(depth), s.API))
+				if f := checkCase(c); f != nil {
+					evid.Violation(t, "SharedReferences", c, f)
+				}
+			}
+		}
+	}
+	evid.Eval(n)
+	evid.Label("shared-references-below-deep-nesting")
+	evid.Enumerated("SharedReferences", 1, 1)
 }
 
 func TestStringEscape(t *testing.T) {
